@@ -160,6 +160,7 @@ class _KeyedDataset:
     def __init__(self, geoms):
         self.by = {id(g['name']): FakeArray(g) for g in geoms}
         self.ems = None
+        self.encoding = {}          # dataset-level encoding (unlimited dimensions ...): not geometry
 
     def __getitem__(self, name):
         return self.by[id(name)]
@@ -481,6 +482,36 @@ def real_dataset_checks(tier):
             rebuilt = rebuilt.set_coords(g)
         if make_cache_key_direct(rebuilt) != ka:
             V(f'real:{conv}:other-byte-order', 'identical datasets get the same key whichever was keyed first', f'{g} stored as {other}')
+    # using the dataset does not change its key: polygons derived from centres with a one-cell-wide channel (a cell
+    # whose two neighbours along an axis are missing), key taken before and after the geometry has been worked out
+    for conv in ('cf2d', 'shoc_simple'):
+        jj, ii = numpy.meshgrid(numpy.arange(3.0), numpy.arange(4.0), indexing='ij')
+        lat, lon = 10.0 + jj + 0.25 * ii, 100.0 + 2.0 * ii - 0.5 * jj
+        for (j, i) in ((1, 0), (1, 2), (1, 3)):
+            lat[j, i] = numpy.nan
+            lon[j, i] = numpy.nan
+        river = (builders.cf2d if conv == 'cf2d' else builders.shoc_simple)(3, 4, lat=lat, lon=lon)
+        twin = river.copy(deep=True)
+        k_before = make_cache_key_direct(river)
+        river.ems.polygons, river.ems.bounds, river.ems.strtree
+        if make_cache_key_direct(river) != k_before or make_cache_key_direct(twin) != k_before or not river.identical(twin):
+            V(f'real:{conv}:key-after-use', 'identical geometry values give the same key before and after the polygons have been worked out', 'derived bounds, one-cell-wide channel')
+    # every record of a geometry variable counts, whatever the dataset-level encoding says about its dimensions
+    rec = _dataset('cf1d')
+    rec = rec.assign(lat_bnds=(('t', 'y', 'Two'), numpy.stack([rec['lat_bnds'].values, rec['lat_bnds'].values + 0.0])))
+    rec.encoding['unlimited_dims'] = {'t'}
+    if 'lat_bnds' in set(rec.copy().ems.get_all_geometry_names()):
+        edited = rec.copy(deep=True)
+        edited['lat_bnds'].values[1, 0, 0] += 0.125
+        edited.encoding['unlimited_dims'] = {'t'}
+        if make_cache_key_direct(edited) == make_cache_key_direct(rec):
+            V('real:cf1d:record-dimension', 'a single edit of a geometry variable changes the cache key', 'lat_bnds(t, y, Two) edited in its second record, t unlimited')
+        plain = rec.copy(deep=True)
+        plain.encoding.pop('unlimited_dims', None)
+        if make_cache_key_direct(plain) != make_cache_key_direct(rec):
+            V('real:cf1d:record-dimension', 'editing non-geometry content does not change the cache key', 'dataset encoding unlimited_dims')
+    else:
+        notes.append('cf1d: bounds with a record dimension are not geometry here')
     # a dataset derived from one that has been hashed before is keyed by what it holds
     for conv in ('cf1d', 'cf2d', 'ugrid'):
         ds = _dataset(conv)
